@@ -31,13 +31,13 @@ InitKeys(i) == InitSatKeys(W, Name(i), Pt(i))
 PoolMatches(lp) ==
   /\ DOMAIN pool' = DOMAIN lp
   /\ \A i \in DOMAIN lp : LET a == pool'[i]  b == lp[i] IN
-        /\ a.st = b.st /\ a.rh = b.rh /\ a.queued = b.queued /\ a.held = b.held /\ a.outs = b.outs
+        /\ a.st = b.st /\ a.rh = b.rh /\ a.queued = b.queued /\ a.held = b.held /\ a.outs = b.outs /\ a.manual = b.manual
         /\ a.sub = b.sub /\ a.efail = b.efail /\ a.sfail = b.sfail
         /\ (a.sat \ InitKeys(i)) = (b.sat \ InitKeys(i))
 Matches(s) ==
   /\ PoolMatches(s.pool) /\ rhl' = s.rhl /\ rhbase' = s.rhbase /\ q' = s.q /\ cmds' = s.cmds /\ jobs' = s.jobs
   /\ net' = s.net /\ acks' = s.acks /\ stopped' = s.stopped /\ futseen' = s.futseen /\ maxfut' = s.maxfut /\ tohold' = s.tohold /\ holdpt' = s.holdpt
-  /\ StopPt' = s.stop
+  /\ StopPt' = s.stop /\ trig' = s.trig
 
 Act(r) ==
   \/ r.ev = "ComputeRunahead" /\ ComputeRunahead
@@ -58,6 +58,8 @@ Act(r) ==
   \/ r.ev = "CmdHoldPoint" /\ CmdHoldPoint(r.arg)
   \/ r.ev = "CmdReleaseHoldPoint" /\ CmdReleaseHoldPoint
   \/ r.ev = "CmdStopPoint" /\ CmdStopPoint(r.arg)
+  \/ r.ev = "CmdTrigger" /\ CmdTrigger(r.arg)
+  \/ r.ev = "CmdSetOut" /\ CmdSetOut(r.arg[1], r.arg[2])
 
 Strict(r) == Act(r) /\ Matches(r.st)
 
@@ -96,7 +98,7 @@ SetFrom(s) ==
   /\ pool' = AsModelPool(s.pool) /\ rhl' = s.rhl /\ q' = s.q /\ cmds' = s.cmds /\ jobs' = s.jobs
   /\ net' = s.net /\ acks' = s.acks /\ stopped' = s.stopped
   /\ rhbase' = s.rhbase /\ futseen' = s.futseen /\ maxfut' = s.maxfut /\ tohold' = s.tohold /\ holdpt' = s.holdpt
-  /\ stopcmd' = (IF s.stop = W.fcp THEN NoPoint ELSE s.stop) /\ cb' = CmdBudget
+  /\ stopcmd' = (IF s.stop = W.fcp THEN NoPoint ELSE s.stop) /\ cb' = CmdBudget /\ trig' = s.trig /\ fset' = fset
 
 Good ==
   /\ l < Len(Run)
@@ -142,7 +144,7 @@ MTInit ==
   /\ pool = AsModelPool(s.pool) /\ rhl = s.rhl /\ q = s.q /\ cmds = s.cmds /\ jobs = s.jobs
   /\ net = s.net /\ acks = s.acks /\ stopped = s.stopped
   /\ rhbase = s.rhbase /\ futseen = s.futseen /\ maxfut = s.maxfut /\ tohold = s.tohold /\ holdpt = s.holdpt
-  /\ stopcmd = (IF s.stop = W.fcp THEN NoPoint ELSE s.stop) /\ cb = CmdBudget
+  /\ stopcmd = (IF s.stop = W.fcp THEN NoPoint ELSE s.stop) /\ cb = CmdBudget /\ trig = s.trig /\ fset = {}
   /\ done = OutsOf(s.pool) /\ ran = {} /\ db = [pool |-> {}]
   /\ fb = [dup |-> Faults.dup, crash |-> Faults.crash]
   /\ tid = 1 /\ l = 1 /\ bad = {}
